@@ -194,3 +194,17 @@ def gen_factor(rnd, tier):
 
 TWINS = {'LiteralEvaluator._op_bin_each': gen_chain, 'LiteralEvaluator._cat': gen_cat, 'LiteralEvaluator.on_func_call': gen_cast,
 	'LiteralEvaluator.on_integer': gen_int, 'LiteralEvaluator.on_factor': gen_factor}
+
+
+def extra_checks(tier, seed, active_known):
+	from pyvc.driver import Extra
+	from twins import evaluator_twin
+	n, fails = evaluator_twin.run(tier, seed)
+	x = Extra(name='one LiteralEvaluator over several modules (same path reloaded with other constants): every folded member reference equals CPython\'s value and type', kind='bounded', ok=not fails, cases=n,
+		bound='4 (quick) / 30 (thorough) histories of 3 generated enum modules (members referring to other members and other enums, + * - | <<), 4 references each, one evaluator per history',
+		detail=f'{len(fails)} differing values', samples=[{'reference': 'E1.B.value', 'verdict': 'equal to CPython'}])
+	x.distinct = n
+	if fails:
+		x.violation = {'what': fails[0]['what'], 'function': 'rogw/tranp/implements/transpiler/evaluator.py:LiteralEvaluator.on_var / on_relay (member references)', 'inputs': fails[0], 'clause': 'folded value == CPython value (value and type), whatever was folded before'}
+		x.finding_key = 'evaluator-history-twin'
+	return [x]
